@@ -51,7 +51,9 @@ def enumFrom {α : Type} : Nat → List α → List (Nat × α)
 
 def handle (toks : List String) : Option String :=
   match toks with
-  | "c06.hist" :: rest =>
+  | "c06.hist" :: rest0 =>
+    -- `@` abbreviates the common import-path prefix of the corpus packages on the wire
+    let rest := rest0.map (fun t => t.replace "@" "github.com/tencent/goom/internal/zzverif/c06")
     match splitBar rest with
     | [stoks, etoks, symtoks] =>
       match stoks.mapM parseStep, etoks.mapM parseEntry with
